@@ -66,6 +66,30 @@ func c07Tree(r gen.R, shape string, big bool) Tree {
 			t = append(t, TNode{Path: fmt.Sprintf("tails/t%04d", i), Size: 3300 + r.Intn(790), Seed: uint64(i + 1)})
 		}
 		return t
+	case "many-dirs":
+		// several directories with hundreds of entries each, nested and side by side: the directory table is many
+		// metadata blocks long and most directories start somewhere in the middle of it
+		var t Tree
+		for d := 0; d < 6; d++ {
+			dir := fmt.Sprintf("dir%d", d)
+			if d%3 == 2 {
+				dir = fmt.Sprintf("dir%d/nested", d-1)
+			}
+			t = append(t, TNode{Path: dir, Dir: true})
+			n := 150 + r.Intn(350)
+			for i := 0; i < n; i++ {
+				t = append(t, TNode{Path: fmt.Sprintf("%s/entry_%04d_%s", dir, i, strings.Repeat("k", r.Intn(20))), Size: r.Intn(2) * 7, Seed: uint64(1000*d + i + 1)})
+			}
+		}
+		return t
+	case "huge-dir":
+		// one flat directory whose listing is longer than 64 KiB (more than an 16-bit directory size can say)
+		t := Tree{{Path: "huge", Dir: true}}
+		n := 4700 + r.Intn(600)
+		for i := 0; i < n; i++ {
+			t = append(t, TNode{Path: fmt.Sprintf("huge/h%05d", i), Size: 0})
+		}
+		return t
 	case "sizes":
 		var t Tree
 		for i, sz := range []int{0, 1, 4095, 4096, 4097, 8192, 8192 + 100, 131072, 131073, 3*131072 + 5, 1<<20 + 17, 200} {
@@ -175,7 +199,7 @@ func c07Run(c core.Case, env *core.Env) core.Result {
 			blk = 4096
 		}
 		caches := []int{-1}
-		if ci < 2 || len(t) < 120 {
+		if (ci < 2 || len(t) < 120) && len(t) < 2500 {
 			caches = []int{-1, 0, int(blk), 3 * int(blk)}
 		}
 		for _, cache := range caches {
@@ -240,18 +264,18 @@ func c07Run(c core.Case, env *core.Env) core.Result {
 }
 
 func init() {
-	shapes := []string{"mixed", "many-entries", "sizes", "small-files", "symlinks", "long-names", "inode-farm", "fragment-farm"}
+	shapes := []string{"mixed", "many-entries", "sizes", "small-files", "symlinks", "long-names", "inode-farm", "fragment-farm", "many-dirs", "huge-dir"}
 	core.Register(&core.Check{
 		ID:    "C07",
 		Level: "exploration",
-		Rule: "generated workspace trees (mixed; a directory with 300-1200 entries so listings span metadata blocks; sizes 0,1,block-1,block,block+1,...; 150 small files sharing fragment blocks; zero runs, compressible and incompressible data; symlinks incl. dangling and 600-byte targets; names up to 255 bytes; a flat directory of 450-650 inodes of varying sizes - symlinks with 40..250-byte targets, files with 1..12-entry block lists, empty files, directories - so that every 8 KiB metadata-block boundary of the inode table falls inside some inode at a varying position; 530-1130 files of just under one 4 KiB block each, so that the fragment table spans several metadata blocks) finalized under every configuration of a matrix {none, gzip, xz, lz4, zstd} x {fragments, NoFragments} x block size {4 KiB, 128 KiB, 1 MiB} x NoCompress*/NoPad flags at start 0 or 1 MiB, on storage pre-filled with a non-zero pattern; each image is re-opened and walked with cache sizes {default, 0, 1 block, 3 blocks}: directories, byte-identical contents and link targets must equal the source and the canonical form must be identical across all configurations (differential); an independent superblock reader checks bytes_used against the highest byte Finalize wrote (write log of the store), table pointers, inode count, block size/log, fragment count; a Finalize refusal for a tree of directories, files and symlinks is a violation; non-trivial = image finalized and walked; distinct = distinct (configuration, start, tree)",
+		Rule: "generated workspace trees (mixed; a directory with 300-1200 entries so listings span metadata blocks; sizes 0,1,block-1,block,block+1,...; 150 small files sharing fragment blocks; zero runs, compressible and incompressible data; symlinks incl. dangling and 600-byte targets; names up to 255 bytes; a flat directory of 450-650 inodes of varying sizes - symlinks with 40..250-byte targets, files with 1..12-entry block lists, empty files, directories - so that every 8 KiB metadata-block boundary of the inode table falls inside some inode at a varying position; 530-1130 files of just under one 4 KiB block each, so that the fragment table spans several metadata blocks; six directories of 150-500 entries each, nested and side by side, so that most directories start in the middle of a directory table many metadata blocks long; one flat directory of 4700-5300 entries, a listing beyond 64 KiB) finalized under every configuration of a matrix {none, gzip, xz, lz4, zstd} x {fragments, NoFragments} x block size {4 KiB, 128 KiB, 1 MiB} x NoCompress*/NoPad flags at start 0 or 1 MiB, on storage pre-filled with a non-zero pattern; each image is re-opened and walked with cache sizes {default, 0, 1 block, 3 blocks}: directories, byte-identical contents and link targets must equal the source and the canonical form must be identical across all configurations (differential); an independent superblock reader checks bytes_used against the highest byte Finalize wrote (write log of the store), table pointers, inode count, block size/log, fragment count; a Finalize refusal for a tree of directories, files and symlinks is a violation; non-trivial = image finalized and walked; distinct = distinct (configuration, start, tree)",
 		Assumptions: []string{"the worker's cwd is deliberately not the workspace", "bytes_used may be followed by padding up to the next 4 KiB boundary unless NoPad"},
 		MinSigs:   map[string]int{"quick": 40, "thorough": 1500},
-		NeedMarks: []string{"comp none", "comp gzip", "comp xz", "comp lz4", "comp zstd", "no fragments", "cache 0-blocks", "cache 1-blocks", "image at non-zero start", "shape many-entries", "shape symlinks", "shape inode-farm", "shape fragment-farm"},
+		NeedMarks: []string{"comp none", "comp gzip", "comp xz", "comp lz4", "comp zstd", "no fragments", "cache 0-blocks", "cache 1-blocks", "image at non-zero start", "shape many-entries", "shape symlinks", "shape inode-farm", "shape fragment-farm", "shape many-dirs", "shape huge-dir"},
 		CPUSec:    900,
 		Cases: func(seed int64, tier string) []core.Case {
 			r := gen.New(seed ^ 0xC07)
-			n := 16
+			n := 20
 			if tier == "thorough" {
 				n = 200
 			}
@@ -272,6 +296,9 @@ func init() {
 						cfgs = append(cfgs, SqOpts{Comp: cp, NoFragments: (i+j)%2 == 0, Block: []int64{4096, 131072, 8192, 1 << 20}[(i+j)%4]})
 					}
 					cfgs = append(cfgs, SqOpts{Comp: "gzip", Block: 4096, NoPad: true, NoCompInodes: i%2 == 0, NoCompFrags: i%2 == 1}, SqOpts{Comp: "gzip", Block: 4096, NonSparse: true, NoCompData: true})
+				}
+				if sh := shapes[i%len(shapes)]; sh == "many-dirs" || sh == "huge-dir" {
+					cfgs = []SqOpts{{Comp: "gzip", Block: 4096}, {Comp: "none", Block: 131072}}
 				}
 				if shapes[i%len(shapes)] == "fragment-farm" {
 					// needs small blocks and fragments switched on
